@@ -14,7 +14,8 @@ def replay(ctx, rep):
     case = rep['case']
     if case.get('scenario'):
         return common.scenario_replay(ctx, rep, {'proxy': proxy_scenarios, 'evolving': evolving_scenarios,
-                                                   'oppfilled': opposite_filled_scenarios})
+                                                   'oppfilled': opposite_filled_scenarios,
+                                                   'slicedel': slice_then_delete_scenarios})
     r = krun.Run(case, ['C07']).run()
     for s in r.steps:
         print(s['op'], '->', s['outcome'])
@@ -594,3 +595,117 @@ _run_e = run
 def run(ctx, out):   # noqa: F811
     _run_e(ctx, out)
     opposite_filled_scenarios(ctx, out)
+
+
+# ---------------------------------------------------------------------------
+# models reached through SLICE assignments on list-based (non-unique) plain references whose new values overlap the
+# replaced ones, then delete(): the inverse bookkeeping of an element that is replaced and assigned again must
+# survive the call (defect repaired by the 'fix:' commit recorded in known_findings.json; oracle on the implementation)
+# ---------------------------------------------------------------------------
+def slice_then_delete_scenarios(ctx, out):
+    from harness import common
+    common.use_repo()
+    from pyecore import ecore as E
+    rng = common.rng_for(ctx.seed, 'C07:slicedel')
+    n = 150 if ctx.tier != 'thorough' else 3000
+    cnt = overl = 0
+    for it in range(n):
+        A = E.EClass('A')
+        B = E.EClass('B')
+        A.eStructuralFeatures.append(E.EReference('refs', B, upper=-1, unique=False))
+        A.eStructuralFeatures.append(E.EReference('one', B))
+        B.eStructuralFeatures.append(E.EReference('peers', B, upper=-1, unique=False))
+        holders = [A() for _ in range(2)]
+        pool = [B() for _ in range(5)]
+        name = {id(o): 'a%d' % i for i, o in enumerate(holders)}
+        name.update({id(o): 'b%d' % i for i, o in enumerate(pool)})
+        everything = holders + pool
+        hist = []
+
+        def lists():
+            return [(h, 'refs') for h in holders] + [(b, 'peers') for b in pool]
+        for step in range(rng.randrange(2, 9)):
+            owner, f = rng.choice(lists())
+            L = owner.eGet(f)
+            k = rng.choice(['slice', 'slice', 'append', 'one'])
+            if k == 'one':
+                h = rng.choice(holders)
+                h.one = rng.choice(pool)
+                hist.append([name[id(h)], 'one =', name[id(h.one)]])
+                continue
+            if k == 'append':
+                cand = [b for b in pool if all(b is not x for x in L) and b is not owner]
+                if cand:
+                    b = rng.choice(cand)
+                    L.append(b)
+                    hist.append([name[id(owner)], f + '.append', name[id(b)]])
+                continue
+            i = rng.randrange(0, len(L) + 1)
+            j = rng.randrange(i, len(L) + 1)
+            rest = list(L[:i]) + list(L[j:])
+            # the resulting list stays duplicate-free (the same target twice in one list is a listed finding of its own)
+            cand = [b for b in pool if all(b is not x for x in rest) and b is not owner]
+            rng.shuffle(cand)
+            if rng.random() < 0.6:
+                cand.sort(key=lambda b: 0 if any(b is x for x in L[i:j]) else 1)   # replaced elements assigned again
+            vals = cand[:rng.randrange(0, min(3, len(cand)) + 1)]
+            rng.shuffle(vals)
+            if not vals:
+                continue                                       # an empty right-hand side is not this family's subject
+            if any(v is x for v in vals for x in L[i:j]):
+                overl += 1
+            L[i:j] = vals
+            hist.append([name[id(owner)], f + '[%d:%d] =' % (i, j), [name[id(v)] for v in vals]])
+
+        def snap():
+            d = {}
+            for o in everything:
+                e = {}
+                for ft in o.eClass.eAllReferences():
+                    v = o.eGet(ft)
+                    e[ft.name] = [name[id(x)] for x in v] if ft.many else (None if v is None else name[id(v)])
+                d[name[id(o)]] = e
+            return d
+        before = snap()
+        victim = rng.choice(pool)
+        vn = name[id(victim)]
+        hist.append([vn, 'delete'])
+        case = {'scenario': 'slicedel', 'seed': ctx.seed, 'tier': ctx.tier, 'history': hist}
+        sig = {'property': 'C07', 'scenario': 'slicedel', 'clause': 'raised'}
+        try:
+            victim.delete()
+        except Exception as e:  # noqa
+            out.fail(sig, f'{vn}.delete() raised {type(e).__name__}: {e} after {hist}', case)
+            continue
+        cnt += 1
+        after = snap()
+        bad = None
+        for on, feats in after.items():
+            for ft, v in feats.items():
+                old = before[on][ft]
+                if on == vn:
+                    if v not in (None, []):
+                        bad = ('deleted-holds-references', f'{on}.{ft} still holds {v}')
+                    continue
+                exp = [x for x in old if x != vn] if isinstance(old, list) else (None if old == vn else old)
+                if (isinstance(v, list) and vn in v) or v == vn:
+                    bad = ('dangling', f'{on}.{ft} still holds the deleted {vn}: {v}')
+                elif v != exp:
+                    bad = ('survivor-changed', f'{on}.{ft} was {old}, is {v}')
+                if bad:
+                    break
+            if bad:
+                break
+        if bad:
+            sig['clause'] = bad[0]
+            out.fail(sig, f'after {hist}: {bad[1]}', case)
+    out.coverage['slice_then_delete_cases'] = cnt
+    out.coverage['slice_then_delete_overlapping_assignments'] = overl
+
+
+_run_o = run
+
+
+def run(ctx, out):   # noqa: F811
+    _run_o(ctx, out)
+    slice_then_delete_scenarios(ctx, out)
